@@ -3,35 +3,6 @@ From Coq Require Import ZArith Reals Floats SpecFloat Lra Lia.
 From Flocq Require Import Core BinarySingleNaN PrimFloat.
 From AG Require Import Base.Prelude Recon.Helix.
 
-(* ---- f64::clamp over an abstract ordered carrier with NaN ---- *)
-Section ClampRange.
-  Variable F : Type.
-  Variables (fltb fleb : F -> F -> bool) (fnan : F -> bool) (lo hi : F).
-  Definition clampF (x : F) : F := if fltb x lo then lo else if fltb hi x then hi else x.
-  Definition in_rangeF (x : F) : bool := fleb lo x && fleb x hi.
-  (* IEEE comparison laws used: for comparable (non-NaN) operands, not (x < y) gives y <= x *)
-  Hypothesis nlt_le : forall x y, fnan x = false -> fnan y = false -> fltb x y = false -> fleb y x = true.
-  Hypothesis lo_le_hi : fleb lo hi = true.
-  Hypothesis lo_refl : fleb lo lo = true.
-  Hypothesis hi_refl : fleb hi hi = true.
-  Hypothesis lo_num : fnan lo = false.
-  Hypothesis hi_num : fnan hi = false.
-
-  Lemma clampF_range : forall x, fnan x = true \/ in_rangeF (clampF x) = true.
-  Proof.
-    intros x. destruct (fnan x) eqn:Nx; [now left | right].
-    unfold clampF, in_rangeF.
-    destruct (fltb x lo) eqn:E1.
-    - now rewrite lo_refl, lo_le_hi.
-    - destruct (fltb hi x) eqn:E2.
-      + now rewrite lo_le_hi, hi_refl.
-      + rewrite (nlt_le x lo Nx lo_num E1), (nlt_le hi x hi_num Nx E2). reflexivity.
-  Qed.
-
-  Lemma clampF_nan : forall x, fnan x = true -> (forall y, fnan x = true -> fltb x y = false) ->
-    (forall y, fnan x = true -> fltb y x = false) -> clampF x = x.
-  Proof. intros x Nx H1 H2. unfold clampF. now rewrite (H1 lo Nx), (H2 hi Nx). Qed.
-End ClampRange.
 
 (* ---------------------------------------------------------------------------------------------
    binary64 (Coq primitive floats, linked to Flocq's binary_float by the standard FloatAxioms):
